@@ -767,10 +767,8 @@ func WriteVariants(w io.Writer, start, end int, firstmissing bool, appendSNP boo
 				}
 				sa = make([]string, 0)
 				for _, v := range VL.Vs {
-					if start > 0 && end > 0 {
-						if v.Position < start || v.Position > end {
-							continue
-						}
+					if (start > 0 && v.Position < start) || (end > 0 && v.Position > end) {
+						continue
 					}
 					newVar, err := FormatVariant(v, appendSNP)
 					if err != nil {
@@ -820,10 +818,8 @@ func AggregateWriteVariants(w io.Writer, start, end int, appendSNP bool, thresho
 		}
 		counter++
 		for _, v := range AS.Vs {
-			if start > 0 && end > 0 {
-				if v.Position < start || v.Position > end {
-					continue
-				}
+			if (start > 0 && v.Position < start) || (end > 0 && v.Position > end) {
+				continue
 			}
 			rep, err := FormatVariant(v, appendSNP)
 			if err != nil {
